@@ -59,6 +59,7 @@ CFG = {
                   "kernel decide over the regenerated tables: application code, or bytes of the legend key + its round trip; Begin = CSI E / SS3 E / CSI 1;m E decoded back), table theorems in both directions; "
                   "Props/C13KeypadPipe - the keypad reports parse back through the parser model, keypad_follows_child_stream (modes as last selected by the child's stream); Witness/F413 keeps the regression statements. "
                   "encodeXterm_body_eq_model re-proved compositionally (keypad prefix evaluated symbolically + coreBody = encodeXtermCore for both environment shapes). "
+                  "Props/C13Uni: key_roundtrip_any_uni / keypad_roundtrip_any_uni - the two kernel-evaluated tables for EVERY unicode oracle that agrees with Go on ASCII and the key codes (congruence lemmas Lemmas/KeyCongr, TermKeyCongr; hypothesis evaluated on Go's tables by the hypk op). "
                   "F513 fixed (dd2d171, root decodeKey: SS3 E = Begin) so that Begin under DECCKM reads back. The oracle judges a keypad key by Spec.keypadJudgedAs (application code, or as the event of its legend key). "
                   "Observations, not defects of the property: DECSTR / XTSAVE / XTRESTORE unimplemented (select nothing), Alt + text production "
                   "is sent as ESC + key. Modelled not verified: parser, unicode tables, pty write.",
